@@ -184,6 +184,8 @@ def run_proc(binary, run, proc, seed, rounds, replay_dir, tier, timeout_s, extra
         args += ["--mode", run["mode"]]
     if run.get("tso"):
         args += ["--tso", "1"]
+    if run.get("stale"):
+        args += ["--stale", "1"]
     for k, v in (run.get("x") or {}).items():
         args += ["--x-" + k, str(v)]
     args += list(extra_args)
@@ -335,7 +337,7 @@ def check(prop, tier, seed, verbose=False):
         if len(samples) < 6:
             samples.extend(res.get("samples", [])[:2])
         run = r["run"]
-        tag = "%s/%s%s%s" % (run["variant"], run["engine"], ("/" + run["mode"]) if run.get("mode") else "", "/tso" if run.get("tso") else "")
+        tag = "%s/%s%s%s" % (run["variant"], run["engine"], ("/" + run["mode"]) if run.get("mode") else "", "/tso" if run.get("tso") else ("/stale" if run.get("stale") else ""))
         pr = per_run.setdefault(tag, {"processes": 0, "rounds": 0, "wall_s": 0.0})
         pr["processes"] += 1
         pr["rounds"] += res.get("rounds", 0)
